@@ -21,14 +21,20 @@ def has_transform(spec):
 
 
 def check_state(spec, hist, reloaded, cont):
-    """All scaling laws for one state (given by its fill history); reloaded: scale the JSON reload instead."""
+    """All scaling laws for one state (given by its fill history); reloaded: scale the JSON reload instead
+    (reloaded == "pickled": scale the pickle clone, which is as mutable as the original)."""
     import histogrammar as hg
     from histogrammar.defs import ContainerException
 
     args = {"spec": spec, "hist": core.show_evs(hist), "reloaded": reloaded, "cont": core.show_evs(cont)}
-    drv = "scale-reloaded" if reloaded else "scale"
+    drv = "scale-pickled" if reloaded == "pickled" else ("scale-reloaded" if reloaded else "scale")
     out = []
     h = core.mk(spec, hist)
+    if reloaded == "pickled":
+        import pickle
+
+        h = pickle.loads(pickle.dumps(h))
+        reloaded = False
     if reloaded:
         h = hg.Factory.fromJson(h.toJson())
     hdoc = h.toJson()
@@ -77,6 +83,18 @@ def check_state(spec, hist, reloaded, cont):
             d = C.diff(l.toJson(), r.toJson())
             if d:
                 out.append(core.v_diff(PROP, drv, nm, d, l.toJson(), args))
+        # ... also for the library's own equality (same keys, same types, not only the same document)
+        import histogrammar.util as U
+
+        for nm, mk_, tol in (("h*1 == h", lambda: (h * 1, h), 0.0), ("1*h == h", lambda: (1 * h, h), 0.0),
+                             ("h*2 == h+h", lambda: (h * 2, h + h), 1e-9)):
+            U.relativeTolerance, U.absoluteTolerance = tol, tol
+            try:
+                l, r = mk_()
+                if not (l == r) or not (r == l):
+                    out.append(FW.violation(PROP, drv, "%s is False for %s" % (nm, type(h).__name__), "not-equal", args, {}))
+            finally:
+                U.relativeTolerance, U.absoluteTolerance = 0.0, 0.0
         # multiplicativity
         for a, b in itertools.product(POS, POS):
             l, r = (h * a) * b, h * (a * b)
@@ -235,7 +253,7 @@ def _tree(task):
     hists = list(Rs.values())
     for i, hist in enumerate(hists):
         cont = (hist[:1] or []) + [evs[(i * 7 + 3) % len(evs)]]
-        for reloaded in (False, True):
+        for reloaded in (False, True, "pickled"):
             acc.add(check_state(spec, hist, reloaded, cont))
             acc.n("state_checks")
             acc.n("transitions", 2 * len(FACTORS) + 20)
@@ -288,7 +306,7 @@ def run(tier, seed):
         "traces_validated_against_impl": ev,
         "evaluations": ev,
         "distinct_nontrivial": len(acc.sets.get("states", ())),
-        "rule": "per tree: every state reachable by <=n fills (mutable and JSON-reloaded) x every factor in "
+        "rule": "per tree: every state reachable by <=n fills (mutable, JSON-reloaded and pickle clone) x every factor in "
                 "{0.5,2.0,4.0,1,1.0,2,3,0,0.0,-1,-0.5,NaN} on both sides of *, compared with the reference refill with scaled "
                 "weights; (h*a)*b==h*(a*b) over factor pairs; h*1==h; h*2==h+h; JSON commutation; distributivity over all "
                 "pairs of a smaller reachable set; then fill,+,+=,hash,copy,second scaling on h*f for f in {0.5,2,0}",
